@@ -826,9 +826,9 @@ static PyObject* gbtrf(PyObject *self, PyObject *args, PyObject *kwrds)
     if (ku < 0) ku = A->nrows - 2*kl - 1;
     if (ku < 0) err_nn_int("kl");
     if (ldA == 0) ldA = MAX(1,A->nrows);
-    if (ldA < 2*kl + ku + 1) err_ld("ldA");
+    if (ldA < 2*(int_t)kl + ku + 1) err_ld("ldA");
     if (oA < 0) err_nn_int("offsetA");
-    if ((int_t)oA + (n-1)*(int_t)ldA + 2*kl + ku + 1 > len(A)) err_buf_len("A");
+    if ((int_t)oA + (n-1)*(int_t)ldA + 2*(int_t)kl + ku + 1 > len(A)) err_buf_len("A");
     if (!Matrix_Check(ipiv) || ipiv ->id != INT) err_int_mtrx("ipiv");
     if (len(ipiv) < MIN(n,m)) err_buf_len("ipiv");
 
@@ -941,11 +941,11 @@ static PyObject* gbtrs(PyObject *self, PyObject *args, PyObject *kwrds)
     if (nrhs < 0) nrhs = B->ncols;
     if (n == 0 || nrhs == 0) return Py_BuildValue("");
     if (ldA == 0) ldA = MAX(1,A->nrows);
-    if (ldA < 2*kl+ku+1) err_ld("ldA");
+    if (ldA < 2*(int_t)kl+ku+1) err_ld("ldA");
     if (ldB == 0) ldB = MAX(1,B->nrows);
     if (ldB < MAX(1, n)) err_ld("ldB");
     if (oA < 0) err_nn_int("offsetA");
-    if ((int_t)oA + (n-1)*(int_t)ldA + 2*kl + ku + 1 > len(A)) err_buf_len("A");
+    if ((int_t)oA + (n-1)*(int_t)ldA + 2*(int_t)kl + ku + 1 > len(A)) err_buf_len("A");
     if (oB < 0) err_nn_int("offsetB");
     if ((int_t)oB + (nrhs-1)*(int_t)ldB + n > len(B)) err_buf_len("B");
     if (len(ipiv) < n) err_buf_len("ipiv");
@@ -1051,11 +1051,11 @@ static PyObject* gbsv(PyObject *self, PyObject *args, PyObject *kwrds)
     if (ku < 0) ku = A->nrows - kl - 1 - (ipiv ? kl : 0);
     if (ku < 0) err_nn_int("ku");
     if (ldA == 0) ldA = MAX(1, A->nrows);
-    if (ldA < ( ipiv ? 2*kl+ku+1 : kl+ku+1)) err_ld("ldA");
+    if (ldA < ( ipiv ? 2*(int_t)kl+ku+1 : (int_t)kl+ku+1)) err_ld("ldA");
     if (ldB == 0) ldB = MAX(1,B->nrows);
     if (ldB < MAX(1,n)) err_ld("ldB");
     if (oA < 0) err_nn_int("offsetA");
-    if ((int_t)oA + (n-1)*(int_t)ldA + (ipiv ? 2*kl+ku+1 : kl+ku+1) > len(A))
+    if ((int_t)oA + (n-1)*(int_t)ldA + (ipiv ? 2*(int_t)kl+ku+1 : (int_t)kl+ku+1) > len(A))
         err_buf_len("A");
     if (oB < 0) err_nn_int("offsetB");
     if ((int_t)oB + (nrhs-1)*(int_t)ldB + n > len(B)) err_buf_len("B");
@@ -1815,9 +1815,9 @@ static PyObject* pbtrf(PyObject *self, PyObject *args, PyObject *kwrds)
     if (kd < 0) kd = A->nrows - 1;
     if (kd < 0) err_nn_int("kd");
     if (ldA == 0) ldA = MAX(1, A->nrows);
-    if (ldA < kd+1) err_ld("ldA");
+    if (ldA < (int_t)kd+1) err_ld("ldA");
     if (oA < 0) err_nn_int("offsetA");
-    if ((int_t)oA + (n-1)*(int_t)ldA + kd + 1 > len(A)) err_buf_len("A");
+    if ((int_t)oA + (n-1)*(int_t)ldA + (int_t)kd+1 > len(A)) err_buf_len("A");
 
     switch (MAT_ID(A)){
         case DOUBLE:
@@ -1902,11 +1902,11 @@ static PyObject* pbtrs(PyObject *self, PyObject *args, PyObject *kwrds)
     if (nrhs < 0) nrhs = B->ncols;
     if (n == 0 || nrhs == 0) return Py_BuildValue("");
     if (ldA == 0) ldA = MAX(1,A->nrows);
-    if (ldA < kd+1) err_ld("ldA");
+    if (ldA < (int_t)kd+1) err_ld("ldA");
     if (ldB == 0) ldB = MAX(1,B->nrows);
     if (ldB < MAX(1,n)) err_ld("ldB");
     if (oA < 0) err_nn_int("offsetA");
-    if ((int_t)oA + (n-1)*(int_t)ldA + kd + 1 > len(A)) err_buf_len("A");
+    if ((int_t)oA + (n-1)*(int_t)ldA + (int_t)kd+1 > len(A)) err_buf_len("A");
     if (oB < 0) err_nn_int("offsetB");
     if ((int_t)oB + (nrhs-1)*(int_t)ldB + n > len(B)) err_buf_len("B");
 
@@ -1996,11 +1996,11 @@ static PyObject* pbsv(PyObject *self, PyObject *args, PyObject *kwrds)
     if (nrhs < 0) nrhs = B->ncols;
     if (n == 0 || nrhs == 0) return Py_BuildValue("");
     if (ldA == 0) ldA = MAX(1,A->nrows);
-    if (ldA < kd+1) err_ld("ldA");
+    if (ldA < (int_t)kd+1) err_ld("ldA");
     if (ldB == 0) ldB = MAX(1,B->nrows);
     if (ldB < MAX(1,n)) err_ld("ldB");
     if (oA < 0) err_nn_int("offsetA");
-    if ((int_t)oA + (n-1)*(int_t)ldA + kd + 1 > len(A)) err_buf_len("A");
+    if ((int_t)oA + (n-1)*(int_t)ldA + (int_t)kd+1 > len(A)) err_buf_len("A");
     if (oB < 0) err_nn_int("offsetB");
     if ((int_t)oB + (nrhs-1)*(int_t)ldB + n > len(B)) err_buf_len("B");
 
@@ -3552,11 +3552,11 @@ static PyObject* tbtrs(PyObject *self, PyObject *args, PyObject *kwrds)
     if (nrhs < 0) nrhs = B->ncols;
     if (n == 0 || nrhs == 0) return Py_BuildValue("");
     if (ldA == 0) ldA = MAX(1,A->nrows);
-    if (ldA < kd+1) err_ld("ldA");
+    if (ldA < (int_t)kd+1) err_ld("ldA");
     if (ldB == 0) ldB = MAX(1,B->nrows);
     if (ldB < MAX(1,n)) err_ld("ldB");
     if (oA < 0) err_nn_int("offsetA");
-    if ((int_t)oA + (n-1)*(int_t)ldA + kd + 1 > len(A)) err_buf_len("A");
+    if ((int_t)oA + (n-1)*(int_t)ldA + (int_t)kd+1 > len(A)) err_buf_len("A");
     if (oB < 0) err_nn_int("offsetB");
     if ((int_t)oB + (nrhs-1)*(int_t)ldB + n > len(B)) err_buf_len("B");
 
